@@ -180,9 +180,19 @@ def check_c04(tier, seed, wd):
         if ci == 1: legacy, n, kind, lvl = False, 4 * MB + 1, 'random', '-1'
         if ci == 2: legacy, n, kind, lvl = True, 8 * MB - 40000, 'random', '-9'
         if 3 <= ci <= 8: legacy, n, lvl = True, [0, 1, 13, 1000, 70000, 250000][ci - 3], rng.choice(['-1', '--fast=3', '-1'])   # small legacy archives: compared byte for byte with Model/Legacy.lean
+        # small default-format archives at a fast level with independent blocks: compared byte for byte with Model/CliFrame.lean (both builds)
+        pinned_frame = 9 <= ci <= 16
+        if pinned_frame: legacy, n, lvl = False, [0, 1, 13, 65535, 65536, 70000, 250000, 262144][ci - 9], rng.choice(['-1', '--fast=3', '--fast=1', '-1'])
         content = gen_content(rng, n, kind)
         opts = [lvl]; want_bsid = 0; want_indep = 2; want_cs = 2; want_cc = 2; use_dict = False
         if legacy: opts = ['-l'] + ([lvl] if lvl in ('-1', '-9', '-3', '--fast=3') else [])
+        elif pinned_frame:
+            b = rng.choice(['', '-B4', '-B5', '-B6', '-B7', '-B4'])
+            if b: opts.append(b); want_bsid = int(b[2])
+            if rng.random() < 0.3: opts.append('-BI'); want_indep = 1
+            if rng.random() < 0.4: opts.append('-BX')
+            if rng.random() < 0.4: opts.append('--content-size'); want_cs = 1 if n > 0 else 2
+            if rng.random() < 0.3: opts.append('--no-frame-crc'); want_cc = 0
         else:
             b = rng.choice(blocks); d = rng.choice(deps)
             if b: opts.append(b)
@@ -198,7 +208,9 @@ def check_c04(tier, seed, wd):
             if rng.random() < 0.15: opts += ['-D', dictfile]; use_dict = True
         src = os.path.join(wd, 'in.bin'); write_file(src, content)
         pipe = rng.random() < 0.3
-        comp_exe = B[rng.choice(['st', 'mt'])]
+        comp_mt = rng.random() < 0.5
+        if pinned_frame: comp_mt = (ci % 2 == 0)
+        comp_exe = B['mt' if comp_mt else 'st']
         arch = os.path.join(wd, 'in.lz4')
         if os.path.exists(arch): os.unlink(arch)
         if pipe:
@@ -210,7 +222,12 @@ def check_c04(tier, seed, wd):
         lvlnum = {'--best': 12}.get(lvl, None)
         if lvlnum is None: lvlnum = -int(lvl.split('=')[1]) if lvl.startswith('--fast') else int(lvl[1:])
         if legacy and lvl not in opts: lvlnum = 1      # `lz4 -l` alone: default level 1
-        recargs = (7, [content, archive, dictdata if use_dict else b'', 1 if legacy else 0, want_bsid, want_indep, want_cs, want_cc, lvlnum])
+        # what reaches the frame, for the archive model: build, requested block size id (0: a custom size), -BX, frame checksum, content size known, independent blocks
+        bopt = [o for o in opts if o.startswith('-B') and o[2:].isdigit()]
+        m_bsid = 7 if not bopt else (int(bopt[-1][2:]) if 4 <= int(bopt[-1][2:]) <= 7 else 0)
+        m_cs = 1 if ('--content-size' in opts and not pipe) else 0
+        recargs = (7, [content, archive, dictdata if use_dict else b'', 1 if legacy else 0, want_bsid, want_indep, want_cs, want_cc, lvlnum,
+                       1 if comp_mt else 0, m_bsid, 1 if '-BX' in opts else 0, 0 if '--no-frame-crc' in opts else 1, m_cs, 0 if '-BD' in opts else 1])
         if rc != 0: ctx.fail('compress_exit_nonzero', 'opts=%s n=%d rc=%d %s' % (opts, n, rc, err[-200:]), recargs); continue
         ctx.rec.write(*recargs)
         write_file(arch, archive)
